@@ -44,13 +44,13 @@ P = {
     "design": [{"module": "MC_I_FlowExcl", "cfg": "MC_I_FlowExcl_quick.cfg", "thorough_cfg": "MC_I_FlowExcl.cfg",
                 "workers": 4, "timeout": 300, "thorough_timeout": 1500, "heap": "4g"}],
     "gens": [
-        {"module": "Gen_FlowExcl", "cfg": "Gen_cover.cfg", "workers": 2, "max": 1200, "thorough_max": 20000,
+        {"module": "Gen_FlowExcl", "cfg": "Gen_cover.cfg", "workers": 2, "max": 1200, "thorough_max": 10000,
          "timeout": 300, "thorough_timeout": 900},
         {"module": "Gen_FlowExcl", "cfg": "Gen_sim.cfg", "simulate": {"num": 60, "depth": 40},
-         "thorough_simulate": {"num": 2000, "depth": 40}, "timeout": 300, "thorough_timeout": 900},
+         "thorough_simulate": {"num": 1000, "depth": 40}, "timeout": 300, "thorough_timeout": 900},
     ],
     "driver": {"overlay_pkg": PKG, "run": "^TestVerifMgrFlowExcl$"},
-    "n_random": (300, 6000),
+    "n_random": (300, 4000),
     "trace": {"module": "T_FlowExcl", "cfg": "T_FlowExcl.cfg", "heap": "4g"},
     "chunk": 200000,
     "signature": signature,
